@@ -844,10 +844,19 @@ pub fn ins(s: &Ins) -> InsertStatement {
             q.select_from(sel(sq)).unwrap();
         }
         InsSource::Default(n) => {
+            // an empty row offered to a statement without columns adds nothing (before or after the fallback)
+            let empty_row = s.cols.is_empty() && route(3) == 0;
+            let after = route(2) == 0;
+            if empty_row && !after {
+                q.values_panic(Vec::<SimpleExpr>::new());
+            }
             if *n == 1 && route(2) == 0 {
                 q.or_default_values();
             } else {
                 q.or_default_values_many(*n);
+            }
+            if empty_row && after {
+                q.values_panic(Vec::<SimpleExpr>::new());
             }
         }
     }
